@@ -24,12 +24,29 @@ func TestDbg(t *testing.T) {
 	cp.SetSpec(spec)
 	w := &world{parser: cp, retries: lavaprotocol.NewRelayRetriesManager()}
 	id, _ := strconv.Atoi(os.Getenv("DBG_ID"))
-	for rep := 0; rep < 5; rep++ {
-		sc := genScript(id, 1)
-		rr := w.runScript(sc)
-		fmt.Println("---- rep", rep, sc.Mode, sc.Class, sc.Variant)
-		for _, l := range rr.mon.log {
-			fmt.Println("   ", l)
-		}
+	seed, _ := strconv.Atoi(os.Getenv("DBG_SEED"))
+	if m, _ := strconv.Atoi(os.Getenv("DBG_MOD")); m > 0 {
+		classMod = m
+	}
+	reps, _ := strconv.Atoi(os.Getenv("DBG_REPS"))
+	done := make(chan bool, 16)
+	for wk := 0; wk < 16; wk++ {
+		go func() {
+			for rep := 0; rep < reps; rep++ {
+				sc := genScript(id, int64(seed))
+				rr := w.runScript(sc)
+				if rr.deadlock != "" || rr.watchdog {
+					fmt.Println("---- rep", rep, sc.Mode, sc.Class, sc.Variant, "deadlock:", rr.deadlock, "watchdog:", rr.watchdog)
+					fmt.Printf("%+v\n", sc.Steps)
+					for _, l := range rr.mon.log {
+						fmt.Println("   ", l)
+					}
+				}
+			}
+			done <- true
+		}()
+	}
+	for wk := 0; wk < 16; wk++ {
+		<-done
 	}
 }
